@@ -112,3 +112,34 @@ Proof.
       finish.
 Qed.
 End P.
+
+(** the methods that read the object: __eq__, _cmp_val, the ordering operators and __str__ *)
+Section M.
+Variable B : backend.
+
+Theorem gen_eq_ok a b : gen_eq a b = url_eqb a b.
+Proof.
+  unfold gen_eq, url_eqb, norm_path. cbv zeta.
+  destruct (nonempty (u_path a)), (nonempty (u_netloc a)), (nonempty (u_path b)), (nonempty (u_netloc b)); reflexivity.
+Qed.
+
+Theorem gen_cmp_val_ok a : gen_cmp_val a = cmp_key a.
+Proof. unfold gen_cmp_val, cmp_key, norm_path. cbv zeta. destruct (nonempty (u_path a)), (nonempty (u_netloc a)); reflexivity. Qed.
+
+Theorem gen_order_ok a b :
+  gen_lt a b = url_ltb a b /\ gen_le a b = url_leb a b /\ gen_gt a b = url_gtb a b /\ gen_ge a b = url_geb a b.
+Proof.
+  unfold gen_lt, gen_le, gen_gt, gen_ge, url_gtb, url_geb, url_ltb, url_leb, tuple_lt, tuple_le, tuple_gt, tuple_ge.
+  rewrite !gen_cmp_val_ok. repeat split.
+Qed.
+
+Theorem gen_str_ok u : gen_str B u = url_str B u.
+Proof.
+  unfold gen_str, url_str, explicit_port, host_subcomponent, raw_user, raw_password, raw_host.
+  destruct (netloc_parts u) as [m|e]; cbn [bind].
+  - destruct (negb (nonempty (u_path u)) && nonempty (u_netloc u) && (nonempty (u_query u) || nonempty (u_fragment u)));
+      destruct (m_port m) as [pt|]; cbn [bind]; try reflexivity;
+      destruct (opt_N_eqb (Some pt) (default_port (u_scheme u))); reflexivity.
+  - destruct (negb (nonempty (u_path u)) && nonempty (u_netloc u) && (nonempty (u_query u) || nonempty (u_fragment u))); reflexivity.
+Qed.
+End M.
